@@ -1207,9 +1207,55 @@ def _forward_one(f, s):
     return True
 
 
+def inline_expr_helpers(f, funcs, recorded_funcs):
+    """calls, anywhere inside expressions, of functions of the same program that the confirmed tree does not have and whose body is a
+    single `return E;` over their (value) parameters: replaced by E with the arguments substituted (arguments of such calls are
+    pure arithmetic here: names, constants, array elements, arithmetic)"""
+    done = 0
+
+    def simple(h):
+        body = [x for x in h.body if not (isinstance(x, C.CDecl) and x.init is None)]
+        return body[0].value if len(body) == 1 and isinstance(body[0], C.CReturn) and body[0].value is not None and not any('*' in pt for pt, _ in h.params) else None
+
+    def pure_arg(a):
+        return all(isinstance(x, (ast.Name, ast.Constant, ast.BinOp, ast.UnaryOp, ast.Subscript, ast.Load, ast.operator, ast.unaryop, ast.expr_context)) or
+                   (isinstance(x, ast.Call) and isinstance(x.func, ast.Name) and x.func.id in ('pow', 'exp', 'log', 'sqrt', 'fabs')) for x in ast.walk(a))
+    for _round in range(6):
+        changed = False
+        for st in f.walk():
+            for holder, attr in _holders(st):
+                e = getattr(holder, attr)
+                if not isinstance(e, ast.AST):
+                    continue
+
+                class T(ast.NodeTransformer):
+                    def visit_Call(self, n):
+                        nonlocal changed, done
+                        self.generic_visit(n)
+                        if isinstance(n.func, ast.Name):
+                            h = funcs.get(n.func.id)
+                            if h is not None and h is not f and h.name not in recorded_funcs and len(h.params) == len(n.args) and all(pure_arg(a) for a in n.args):
+                                body = simple(h)
+                                if body is not None:
+                                    mp = {pn: a for (pt, pn), a in zip(h.params, n.args)}
+
+                                    class S(ast.NodeTransformer):
+                                        def visit_Name(self, m):
+                                            return C._clone(mp[m.id]) if m.id in mp else m
+                                    changed = True
+                                    done += 1
+                                    return S().visit(C._clone(body))
+                        return n
+                setattr(holder, attr, T().visit(e))
+        if not changed:
+            break
+    return done
+
+
 def normalise(f, funcs, recorded_funcs, recorded_locals, global_ptrs=()):
     """all of the above on one function; returns the number of rewrites; raises Unsupported"""
-    n = inline_void_helpers(f, funcs, recorded_funcs)
+    n = inline_expr_helpers(f, funcs, recorded_funcs)
+    n += inline_void_helpers(f, funcs, recorded_funcs)
     n += pointer_for_loops(f)
     n += countdown_while(f)
     n += countdown_loops(f)
